@@ -171,7 +171,9 @@ def check(pid, tier, seed, args):
 
     violations = []
     known_hit = []
+    proof_lost = []          # refuted proof scaffolding (loop invariants, weak models) awaiting native confirmation
     replay_dir = os.path.join(os.environ.get('PYVC_OUT_DIR', HERE), 'replays', pid)
+    replay_cache = {}
     for cid, name, cl in refuted:
         full = "%s::%s" % (cid, name)
         kf = [k for k in kfs if k.get('obligation') == full]
@@ -179,28 +181,43 @@ def check(pid, tier, seed, args):
             known_hit.append((full, kf[0]))
             continue
         os.makedirs(replay_dir, exist_ok=True)
-        nat = native_replay(by_id[cid], name, cl)
+        if by_id[cid].replay is not None and cid in replay_cache and not replay_cache[cid].get('uses_model'):
+            nat = replay_cache[cid]
+        else:
+            nat = native_replay(by_id[cid], name, cl)
+            if nat is not None:
+                replay_cache[cid] = nat
         safe = "".join(ch if ch.isalnum() else '_' for ch in full)[:120]
         path = os.path.join(replay_dir, safe + ".json")
         was = (baseline.get(cid) or {}).get(name)
+        record = {'property': pid, 'contract': cid, 'obligation': name, 'function': by_id[cid].func,
+                  'baseline_status': was, 'model': cl.get('model'), 'anchor': cl.get('where'),
+                  'solver_output': {'result': 'sat (obligation refuted)', 'negated_goal': cl.get('detail'),
+                                    'path_decisions': cl.get('path')},
+                  'native': nat}
         with open(path, 'w') as f:
-            json.dump({'property': pid, 'contract': cid, 'obligation': name, 'function': by_id[cid].func,
-                       'baseline_status': was, 'model': cl.get('model'), 'anchor': cl.get('where'),
-                       'solver_output': {'result': 'sat (obligation refuted)', 'negated_goal': cl.get('detail'),
-                                         'path_decisions': cl.get('path')},
-                       'native': nat}, f, indent=1, default=str)
-        violations.append((full, path, bool(nat and nat.get('reproduced'))))
+            json.dump(record, f, indent=1, default=str)
+        reproduced = bool(nat and nat.get('reproduced'))
+        scaffolding = name.startswith('loop-init/') or name.startswith('loop-preserve/') or '[weak model' in (cl.get('detail') or '')
+        if reproduced or not scaffolding:
+            violations.append((full, path, reproduced))
+        else:
+            # a loop invariant that is no longer inductive (or a model found with hypotheses dropped) says the PROOF
+            # is lost, not that the property fails: it needs a concrete failing input to count
+            proof_lost.append((full, path, record))
 
     # ---- bounded stand-in (thorough always; quick only when the proof is not (re-)established)
-    proof_ok = not (unknown or undecided or missing or errors)
+    proof_ok = not (unknown or undecided or missing or errors or proof_lost)
     standin = None
     run_standin = (tier == 'thorough') or (not proof_ok) or (not contracts)
+    have_standin = False
     if run_standin and not args.no_standin:
         try:
             mod = importlib.import_module('standins.' + pid.lower())
         except ImportError:
             mod = None
         if mod is not None:
+            have_standin = True
             try:
                 standin = mod.run(tier=tier, seed=seed)
             except Exception as e:
@@ -220,12 +237,25 @@ def check(pid, tier, seed, args):
                 with open(path, 'w') as f:
                     json.dump({'property': pid, 'kind': 'standin', 'case': fail, 'native': {'reproduced': True}}, f, indent=1, default=str)
                 violations.append(("standin::" + str(fail.get('key')), path, True))
+    native_fail = [v for v in violations if v[0].startswith('standin::')]
+    for full, path, record in proof_lost:
+        if native_fail:
+            # the concrete failing input found by the bounded check is attached to the refuted obligation
+            record['native'] = {'reproduced': True, 'found_by': 'bounded stand-in', 'replay': native_fail[0][1]}
+            with open(path, 'w') as f:
+                json.dump(record, f, indent=1, default=str)
+            violations.append((full, path, True))
+        elif not have_standin or args.no_standin:
+            violations.append((full, path, False))
+    proof_lost_quiet = [] if (native_fail or not have_standin or args.no_standin) else proof_lost
 
     # ---- report
     for full, kf in known_hit:
         print("KNOWN-FINDING: property=%s %s -- %s" % (pid, full, kf.get('what_fails', '')))
     for full, path, reproduced in violations:
         print("VIOLATION property=%s replay=%s obligation=%s%s" % (pid, path, full, "" if reproduced else " no-failing-input-found"))
+    for full, path, record in proof_lost_quiet:
+        print("PROOF-LOST %s: obligation refuted by the solver but no failing input exists in the bounded native check (%s); not a violation" % (full, path))
     for cid, why in undecided:
         print("UNDECIDED %s: %s" % (cid, why))
     for cid, name, cl in unknown:
